@@ -126,7 +126,8 @@ def run_replay_file(pid, path, timeout=300):
 
 def finish(rep: Report, max_replays_per_sig=4):
     known = load_known()
-    os.makedirs(os.path.join(ROOT, "evidence"), exist_ok=True)
+    evdir = os.environ.get("QVERIF_EVIDENCE_DIR") or os.path.join(ROOT, "evidence")
+    os.makedirs(evdir, exist_ok=True)
     rdir = os.path.join(ROOT, "replays", rep.pid)
     # group candidates by signature; try a few witnesses per signature
     groups = {}
@@ -138,7 +139,15 @@ def finish(rep: Report, max_replays_per_sig=4):
         cs = sorted(cs, key=lambda c: c.get("prefix_len", 0))
         reproduced = None
         last_out = ""
+        flat = []
         for c in cs[:max_replays_per_sig]:
+            flat.append(c)
+        for c in cs[:2]:
+            for w in c.get("alts") or []:
+                c2 = dict(c)
+                c2["witness"] = w
+                flat.append(c2)
+        for c in flat[: max_replays_per_sig + 8]:
             os.makedirs(rdir, exist_ok=True)
             blob = {"property": rep.pid, "scenario": c["scenario"], "params": c["params"], "label": c["label"], "info": c.get("info"), "witness": c["witness"]}
             h = hashlib.sha1(json.dumps(blob, sort_keys=True).encode()).hexdigest()[:12]
@@ -154,6 +163,29 @@ def finish(rep: Report, max_replays_per_sig=4):
             if rc == 1:
                 reproduced = (c, path)
                 break
+            else:
+                try:
+                    os.remove(path)
+                except OSError:
+                    pass
+        if not reproduced and cs and cs[0]["witness"].get("ranges") is not None:
+            c = dict(cs[0])
+            c["witness"] = dict(c["witness"])
+            c["witness"]["random_trials"] = 40
+            os.makedirs(rdir, exist_ok=True)
+            blob = {"property": rep.pid, "scenario": c["scenario"], "params": c["params"], "label": c["label"], "info": c.get("info"), "witness": c["witness"]}
+            h = hashlib.sha1(json.dumps(blob, sort_keys=True).encode()).hexdigest()[:12]
+            path = os.path.join(rdir, f"{h}.json")
+            with open(path, "w") as fh:
+                json.dump(blob, fh, indent=1)
+            try:
+                rc, out = run_replay_file(rep.pid, path, timeout=600)
+            except subprocess.TimeoutExpired:
+                rc, out = 99, "replay timeout"
+            replays_run += 1
+            last_out = out
+            if rc == 1:
+                reproduced = (c, path)
             else:
                 try:
                     os.remove(path)
@@ -247,7 +279,7 @@ def finish(rep: Report, max_replays_per_sig=4):
         "wall_s": round(time.time() - rep.t0, 2),
         "violations": len(violations),
     }
-    with open(os.path.join(ROOT, "evidence", f"{rep.pid}.json"), "w") as fh:
+    with open(os.path.join(evdir, f"{rep.pid}.json"), "w") as fh:
         json.dump(ev, fh, indent=1)
     status = {0: "HOLDS (within bounds)", 1: "VIOLATED", 2: "INCONCLUSIVE", 3: "HARNESS-ERROR"}[rc]
     print(f"[{rep.pid}] {status}: paths={tot_paths} obligations={sum(obl.values())} discharged={discharged} queries={nq} replays={replays_run} known={len(known_hits)} wall={ev['wall_s']}s")
@@ -343,20 +375,60 @@ def run_plan(rep, plan, scenarios, opts, workers=None, canaries=()):
         rep.note_sample({"scenario": tag, "paths": res.paths, "obligations": {f"{k[0]}:{k[1]}": v for k, v in res.oblig.items()}})
 
 
+def _random_witness(base, seed):
+    import random
+
+    rnd = random.Random(seed)
+    sym = {}
+    for name, (kind, lo, hi) in (base.get("ranges") or {}).items():
+        if kind == "B":
+            sym[name] = rnd.random() < 0.5
+        elif kind == "I":
+            lo_ = -3 if lo is None else lo
+            hi_ = lo_ + 6 if hi is None else hi
+            sym[name] = rnd.randint(lo_, hi_)
+        else:
+            if lo is not None and hi is not None:
+                sym[name] = rnd.uniform(lo, hi)
+            elif lo is not None:
+                sym[name] = lo + abs(rnd.gauss(0, 1)) * 10 ** rnd.uniform(-2, 2) + 1e-6
+            elif hi is not None:
+                sym[name] = hi - abs(rnd.gauss(0, 1)) * 10 ** rnd.uniform(-2, 2) - 1e-6
+            else:
+                sym[name] = rnd.gauss(0, 1) * 10 ** rnd.uniform(-1, 1.5)
+    return {"symbols": sym, "draws": [], "ranges": base.get("ranges"), "random_seed": seed}
+
+
 def generic_replay(scenarios):
     """Build a module-level replay(data) from a dict name -> harness(V, **params)."""
     from .symx import Replay, ReplayMismatch
 
-    def replay(data):
+    def one(data, witness):
         fn = scenarios[data["scenario"].split("[")[0]]
-        V = Replay(data["witness"])
+        V = Replay(witness)
         try:
             fn(V, **data.get("params", {}))
         except ReplayMismatch as ex:
             return False, f"mismatch: {ex}"
         hit = [l for l in V.failed if l == data["label"]]
         if hit:
-            return True, f"obligation '{data['label']}' fails on the real code with the solver's values"
+            return True, f"obligation '{data['label']}' fails on the real code"
         return False, f"failed labels on replay: {V.failed}"
+
+    def replay(data):
+        w = data["witness"]
+        if w.get("random_trials"):
+            last = "no trial"
+            for t in range(int(w["random_trials"])):
+                wt = _random_witness(w, 1000 + t)
+                try:
+                    ok, detail = one(data, wt)
+                except Exception as ex:  # a trial outside the harness's preconditions
+                    ok, detail = False, f"trial error {type(ex).__name__}: {ex}"
+                last = detail
+                if ok:
+                    return True, detail + f" (solver flagged the obligation; concrete inputs found by seeded search, seed={1000 + t}: {wt['symbols']})"
+            return False, last
+        return one(data, w)
 
     return replay
